@@ -13,6 +13,14 @@ Lemma all_cop_ok : forall x, In x all_cop. Proof. destruct x; simpl; tauto. Qed.
 Definition RM_eq_dec : forall a b : RM, {a = b} + {a <> b}.
 Proof. repeat decide equality. Defined.
 Definition rnofuel (m : RM) : bool := match snd m with RFuel => false | _ => true end.
+Definition chk2 (e : bool) (a b : RM) : bool := e || ((if RM_eq_dec a b then true else false) && rnofuel b).
+Lemma chk2_elim : forall e a b, chk2 e a b = true -> e = false -> a = b /\ snd b <> RFuel.
+Proof.
+  intros e a b H He. unfold chk2 in H. rewrite He in H. simpl in H.
+  apply andb_prop in H. destruct H as [H1 H2].
+  destruct (RM_eq_dec a b) as [E|E]; [|discriminate].
+  split; [exact E|]. unfold rnofuel in H2. intro Hf. rewrite Hf in H2. discriminate.
+Qed.
 
 (* a class as seen by operator `op` without total_ordering: the state of the method the operator
    dispatches to (a), of its reflection - for != : of __eq__ - (b), and whether the class defines any
@@ -44,15 +52,11 @@ Definition pair_dom : list (rcls * rcls * cstate) :=
 (* X's view: the two relevant methods (its other methods are taken as undefined) *)
 Definition all_xview : list view := list_prod (list_prod all_cstate all_cstate) [false].
 
-Definition chk_rc (op : cop) (tv xv : view) (xpy : bool) (p : rcls * rcls * cstate) : bool :=
-  let '(L, R, ub) := p in
-  exc_ne op tv xv xpy L R ||
-  (let a := rc_plain WPy false op tv xv xpy ub L R in
-   let b := rc_plain WCy false op tv xv xpy ub L R in
-   (if RM_eq_dec a b then true else false) && rnofuel b).
+Definition chk_rc (op : cop) (tv xv : view) (xpy : bool) (L R : rcls) (ub : cstate) : bool :=
+  chk2 (exc_ne op tv xv xpy L R) (rc_plain WPy false op tv xv xpy ub L R) (rc_plain WCy false op tv xv xpy ub L R).
 
 Lemma chk_rc_all : forallb (fun op => forallb (fun tv => forallb (fun xv => forallb (fun xpy => forallb (fun p =>
-  chk_rc op tv xv xpy p) pair_dom) all_bool) all_xview) all_view) all_cop = true.
+  chk_rc op tv xv xpy (fst (fst p)) (snd (fst p)) (snd p)) pair_dom) all_bool) all_xview) all_view) all_cop = true.
 Proof. vm_compute. reflexivity. Qed.
 
 Theorem richcmp_eq_partial : forall op tv xv xpy ub L R,
@@ -67,9 +71,7 @@ Proof.
   rewrite forallb_forall in H. specialize (H xv Hxv).
   rewrite forallb_forall in H. specialize (H xpy (all_bool_ok xpy)).
   rewrite forallb_forall in H. specialize (H (L, R, ub) Hp).
-  unfold chk_rc in H. rewrite He in H. cbv zeta in H. simpl orb in H. apply andb_prop in H. destruct H as [H1 H2].
-  destruct (RM_eq_dec (rc_plain WPy false op tv xv xpy ub L R) (rc_plain WCy false op tv xv xpy ub L R)) as [E|E]; [|discriminate].
-  split; [exact E|]. unfold rnofuel in H2. intro Hf. rewrite Hf in H2. discriminate.
+  cbn [fst snd] in H. exact (chk2_elim _ _ _ H He).
 Qed.
 
 (* finding: `x != y`, X a Python subclass overriding __eq__ of an extension type that has a generated
@@ -80,7 +82,7 @@ Theorem richcmp_ne_refuted :
 Proof. exists (CU, CTr, false), (CU, CFa, false). vm_compute. split; reflexivity. Qed.
 
 (* ---- total_ordering: T defines __eq__ (answering True/False), no __ne__, at least one ordering method;
-   X a plain subclass; every operand pair except (T instance, subclass instance) *)
+   X a plain subclass; every operand pair except (T, X) and (X, T) *)
 Definition ordst := (cstate * cstate * cstate * cstate)%type.        (* lt le gt ge *)
 Definition all_ordst : list ordst := list_prod (list_prod (list_prod all_cstate all_cstate) all_cstate) all_cstate.
 Lemma all_ordst_ok : forall x, In x all_ordst.
@@ -94,19 +96,18 @@ Definition no_st (m : cop) : cstate := CU.
 Definition rc_tot (w : world) (o : ordst) (e n : cstate) (xpy : bool) (uo ue : cstate) (L R : rcls) (op : cop) : RM :=
   rc_run w (st_of_ord o e n) no_st true xpy uo ue false L R op.
 
-(* every operand pair except (T instance, subclass instance) *)
+(* every operand pair except those mixing a T instance with a subclass instance (either order: the inner
+   `self != other` of functools gives the subclass operand priority) *)
 Definition tot_dom : list (rcls * rcls * cstate) :=
-  filter (fun p => let '(L, R, _) := p in negb (rcls_eqb L rT && rcls_eqb R rX)) pair_dom.
+  filter (fun p => let '(L, R, _) := p in
+                   negb ((rcls_eqb L rT && rcls_eqb R rX) || (rcls_eqb L rX && rcls_eqb R rT))) pair_dom.
 
-Definition chk_tot (o : ordst) (eb : bool) (xpy : bool) (p : rcls * rcls * cstate) (op : cop) : bool :=
-  let '(L, R, ub) := p in
-  let e := if eb then CTr else CFa in
-  negb (has_ord o) ||
-  (let a := rc_tot WPy o e CU xpy ub ub L R op in
-   let b := rc_tot WCy o e CU xpy ub ub L R op in
-   (if RM_eq_dec a b then true else false) && rnofuel b).
+Definition chk_tot (o : ordst) (eb : bool) (xpy : bool) (L R : rcls) (ub : cstate) (op : cop) : bool :=
+  chk2 (negb (has_ord o))
+       (rc_tot WPy o (if eb then CTr else CFa) CU xpy ub ub L R op)
+       (rc_tot WCy o (if eb then CTr else CFa) CU xpy ub ub L R op).
 Lemma chk_tot_all : forallb (fun o => forallb (fun eb => forallb (fun xpy => forallb (fun p =>
-  forallb (fun op => chk_tot o eb xpy p op) all_cop) tot_dom) all_bool) all_bool) all_ordst = true.
+  forallb (fun op => chk_tot o eb xpy (fst (fst p)) (snd (fst p)) (snd p) op) all_cop) tot_dom) all_bool) all_bool) all_ordst = true.
 Proof. vm_compute. reflexivity. Qed.
 
 Theorem richcmp_total_ordering_partial : forall o (eb xpy : bool) ub L R op,
@@ -122,10 +123,7 @@ Proof.
   rewrite forallb_forall in H. specialize (H xpy (all_bool_ok xpy)).
   rewrite forallb_forall in H. specialize (H (L, R, ub) Hp).
   rewrite forallb_forall in H. specialize (H op (all_cop_ok op)).
-  unfold chk_tot in H. rewrite Ho in H. cbv zeta in H. simpl orb in H. simpl negb in H. fold e in H.
-  apply andb_prop in H. destruct H as [H1 H2].
-  destruct (RM_eq_dec (rc_tot WPy o e CU xpy ub ub L R op) (rc_tot WCy o e CU xpy ub ub L R op)) as [E|E]; [|discriminate].
-  split; [exact E|]. unfold rnofuel in H2. intro Hf. rewrite Hf in H2. discriminate.
+  cbn [fst snd] in H. apply (chk2_elim _ _ _ H). rewrite Ho. reflexivity.
 Qed.
 
 Definition ord_lt (s : cstate) : ordst := (s, CU, CU, CU).
